@@ -102,7 +102,7 @@ def merge_vals(rets):
     raise Unsupported(f'cannot merge {[type(v).__name__ for v in vals]}')
 
 
-def eval_merged(I, thunk, assume=()):
+def eval_merged(I, thunk, assume=(), placeholder=None):
     """Evaluate thunk() on every path under the current pc and merge the results."""
     base_len = len(I.ex.ctx.pc) + len(assume)
     from .interp import PyRaise
@@ -113,6 +113,12 @@ def eval_merged(I, thunk, assume=()):
         except PyRaise as pr:
             return ('raise', pr.exc, None)
     res = I.ex.explore_nested(wrapped, assume)
+    if not res and assume and not I.ex.ctx.feasible(z3.And(*assume)):
+        # The element domain is empty on this path (e.g. the source sequence has length 0 here): the
+        # path itself is NOT infeasible - the element is simply never observed.  An arbitrary value
+        # stands for it (every consumer guards element access by the index range).  Dropping the path
+        # instead would leave the empty case of the enclosing function unverified (R7_C18_a).
+        return placeholder() if placeholder is not None else VAny(z3.Const(fresh_name('noelem'), PyVal))
     return merge(I, res, base_len)
 
 
@@ -461,7 +467,8 @@ def comprehension(I, node, env, kind):
                             if not I.choose_truthy(I.eval(c, e2)):
                                 return VBool(False)
                         return VBool(True)
-                    conds.append(eval_merged(I, th, assume=[z3.And(i >= 0, i < src.src_len)]).t)
+                    conds.append(eval_merged(I, th, assume=[z3.And(i >= 0, i < src.src_len)],
+                                             placeholder=lambda: VBool(z3.Bool(fresh_name('nopred')))).t)
                 cache_p[key] = (i, z3.And(*conds) if len(conds) > 1 else conds[0])
             return cache_p[key][1]
     return VSeq(src.src_len, elem, pred, kind)
